@@ -35,6 +35,15 @@ fn main() {
         Some("check") => {
             let id = args.get(2).cloned().unwrap_or_else(|| usage());
             let env = Env::from_env(args.get(3).map(|s| s.as_str()));
+            // wall-clock watchdog of the whole run: exceeding it is infrastructure trouble
+            // (exit 2, inconclusive), never a verdict
+            let limit: u64 = std::env::var("QV_WALL_LIMIT_S").ok().and_then(|v| v.parse().ok()).unwrap_or(env.tier.pick(1800, 8 * 3600));
+            let wid = id.clone();
+            std::thread::spawn(move || {
+                std::thread::sleep(std::time::Duration::from_secs(limit));
+                eprintln!("[qv] {wid}: the run exceeded its wall-clock limit of {limit} s: inconclusive");
+                std::process::exit(2);
+            });
             // a panic of the harness itself is infrastructure trouble, never a verdict
             let code = std::panic::catch_unwind(std::panic::AssertUnwindSafe(|| checks::run(&id, &env, &known))).unwrap_or_else(|_| {
                 eprintln!("[qv] the harness itself panicked: inconclusive");
